@@ -33,7 +33,8 @@ def oks_matrix(E, gts, prs, opt, sarr=None):
     kw = dict(stddev=(sarr if sarr is not None else opt["s"] / 40.0), use_cocoeval=opt["coco"])
     if opt["scale"] >= 0:
         kw["scale"] = opt["scale"] / 16.0
-    M = E.compute_oks(np.stack([U.pose_np(p) for p in gts]), np.stack([U.pose_np(p) for p in prs]), **kw)
+    dt = "float32" if opt.get("f4") else "float64"       # poses out of torch are float32; all test coordinates are exact in both
+    M = E.compute_oks(np.stack([U.pose_np(p) for p in gts]).astype(dt), np.stack([U.pose_np(p) for p in prs]).astype(dt), **kw)
     if M.shape != (len(gts), len(prs)):
         raise ValueError("compute_oks returned shape %s for %d x %d" % (M.shape, len(gts), len(prs)))
     return [[U.obs(M[g, p]) for p in range(len(prs))] for g in range(len(gts))]
@@ -94,6 +95,9 @@ def observe_oks(c):
 def mk_rels(rng, gts, prs):
     G, P, N = len(gts), len(prs), len(gts[0])
     rels = [dict(t="translate", dx=rng.randint(-40, 40), dy=rng.randint(-40, 40))]
+    # image-scale and far translations (lattice units of 1/4 px: 1024 px, 3072 px, 2^20 px) - still exact in float32 / float64
+    far = rng.choice([(4096, 12288), (12288, -4096), (-8192, 4096), (1 << 22, 1 << 22)])
+    rels.append(dict(t="translate", dx=far[0], dy=far[1]))
     if G * P > 1:
         pg, pp = list(range(1, G + 1)), list(range(1, P + 1))
         rng.shuffle(pg)
@@ -119,7 +123,7 @@ def rand_pose(rng, N, pattern):
 def oks_cases(tier, rng):
     quick = tier == "quick"
     out = []
-    opts = [dict(s=s, coco=c, scale=a, sarr=False) for s in S_VALUES for c in (True, False) for a in SCALES]
+    opts = [dict(s=s, coco=c, scale=a, sarr=False, f4=bool((i + j + k) % 2)) for i, s in enumerate(S_VALUES) for j, c in enumerate((True, False)) for k, a in enumerate(SCALES)]
     # family A: one node, gt at (8,8), prediction over the whole 17x17 lattice (stride 2 in quick) or missing
     step = 2 if quick else 1
     for opt in opts:
